@@ -175,3 +175,15 @@ PROPS["C16"]["rule"] += " tc (schedules): 2-4 concurrent Check callers with time
 PROPS["C16"]["trusted_base"] = PROPS["C16"]["trusted_base"] + TB_SCHED
 PROPS["C03"]["components"].append(Sched("tc", 1500, 60000, label="sched-tc-gate"))
 PROPS["C03"]["trusted_base"] = PROPS["C03"]["trusted_base"] + TB_SCHED
+
+PROPS["C17"]["components"].append(Sched("mgr", 2000, 100000, exhaustive_limit=3000))
+PROPS["C17"]["rule"] += " mgr (schedules): 2-4 threads among CreateCircuit(same name) / CreateCircuit(other) / GetCircuit / AllCircuits / Var on one Manager, with and without a StatFactory, under the cooperative scheduler; quiescent monitor: exactly one winner, stable handle, AllCircuits = successful creations, stats binding."
+PROPS["C17"]["trusted_base"] = PROPS["C17"]["trusted_base"] + TB_SCHED
+
+PROPS["C20"] = {
+    "components": [Seq("consumers", 600, 30000)],
+    "rule": "consumers: histories of calls of all seven run kinds and three fallback kinds (durations around MaximumHealthyTime and Timeout +-1), manual open/close (short-circuits), limits 0 (rejections), clock steps across partial/full stats windows, on a circuit created through a Manager with rolling.StatFactory and the SLO factory; "
+            "queries: per-kind totals and rolling sums, ErrorPercentage (as exact rational of the double), SLO pass/fail and collector callbacks, hystrix event-stream record through the real HTTP handler; non-trivial = at least one clock step; distinct by FNV hash",
+    "trusted_base": TB_CIRCUIT + ["the event-stream record is fetched through Start/ServeHTTP with a 1 ms tick while the substitute clock is frozen (so that the number of ticks does not matter)", "encoding/json of the record"],
+    "assumptions": ["sequential histories with a monotone clock (one unambiguous window)"],
+}
